@@ -5,6 +5,7 @@ import os
 import random
 import re
 
+import bockit as bk
 import cellkit as ck
 from pytoniq_core.boc import Cell
 from drivers.c01 import dag_cfg
@@ -12,13 +13,13 @@ from drivers.c01 import dag_cfg
 PROP = 'C02'
 TRACE_MODULE = 'C02Trace.tla'
 RULE = ('G: every heap of the CellDag machine with exotic constructors (<= MaxCells) and every state of the directed '
-        'pruning machine MC_Prune (tree, wraps, prunings; pruned twin + original), each through routes builder/ctor/boc; '
+        'pruning machine MC_Prune (tree, wraps, prunings; pruned twin + original), each through routes builder/ctor/boc/boc_wh (a foreign bag that stores hashes next to cells); '
         'random: random DAGs with random prunings at levels 1..3 under 0..2 Merkle wrappers; the bundled main-net block '
         '(301 cells, 82 exotic); distinct = distinct (route, root hash) of records containing an exotic cell')
 ASSUMPTIONS = ['TonSha.Sha256 anchored on FIPS vectors', 'TonCell transcription of TON DataCell::create / LevelMask',
                'random part: stored hashes of pruned branches are filled from the library (input construction only; every '
                'level hash of every cell is re-derived by TLC from the recorded content)']
-ROUTES = ['builder', 'ctor', 'boc']
+ROUTES = ['builder', 'ctor', 'boc', 'boc_wh']
 
 
 def prune_cfg(wrap, depth, kids, lens, symbolic, emit, invs=True):
@@ -63,9 +64,13 @@ def record(heap, route, rng, twins=(), note=None):
         rec['note'] = note
     try:
         objs = ck.build_heap(heap, 'ctor' if route == 'ctor' else 'builder')
-        if route == 'boc':
+        if route in ('boc', 'boc_wh'):
             roots = [o for k, o in enumerate(objs) if not any((k + 1) in c['r'] for c in heap)]
-            parsed = Cell.from_boc(roots[-1].to_boc())
+            if route == 'boc':
+                parsed = Cell.from_boc(roots[-1].to_boc())
+            else:
+                # the same bag written by a foreign encoder that stores hashes and depths next to special cells / all cells
+                parsed = Cell.from_boc(bk.emit_with_hashes(roots[-1], rng.choice(['exotic', 'exotic', 'level', 'all'])))
             _, _, objs = ck.project(parsed)
             rec['twins'] = []
     except Exception as e:
@@ -73,7 +78,7 @@ def record(heap, route, rng, twins=(), note=None):
         rec['cells'] = heap
         return rec
     heap2, _, pobjs = ck.project(objs)
-    if route != 'boc' and len(heap2) == len(heap):
+    if route not in ('boc', 'boc_wh') and len(heap2) == len(heap):
         # keep the driver's numbering so that twin indices stay meaningful (project() may reorder)
         heap2, pobjs = [dict(ck.abstract(o), r=list(c['r'])) for o, c in zip(objs, heap)], objs
     else:
@@ -157,7 +162,7 @@ def generate(tier, seed, ctx):
             both = oh + [dict(c, r=[j + off for j in c['r']]) for c in ph]
             tw = [(st['root'] + off, st['oroot'])]
             out.append(record(both, rng.choice(['builder', 'ctor']), rng, tw, note=name))
-            out.append(record(ph, 'boc', rng, note=name))
+            out.append(record(ph, rng.choice(['boc', 'boc_wh']), rng, note=name))
     # random prunings (stored hashes from the library), with Merkle wrappers built by the library values too
     for _ in range(40 if tier == 'quick' else 600):
         heap, twins, n, root_t, wraps = random_pruned_case(rng)
@@ -182,7 +187,7 @@ def generate(tier, seed, ctx):
             twins = list(twins) + [(b, a)]
         out.append(record(heap, rng.choice(ROUTES[:2]), rng, twins, note='random'))
         if rng.random() < 0.5:
-            out.append(record(heap[:], 'boc', rng, note='random'))
+            out.append(record(heap[:], rng.choice(['boc', 'boc_wh']), rng, note='random'))
     # the bundled main-net block
     src = open(os.environ.get('VERIF_REPO', '/repo') + '/tests/test_cell.py').read()
     b64 = re.search(r"block_boc = '([^']+)'", src).group(1)
